@@ -35,10 +35,18 @@ class AttributeDict(dict):
         self[attr] = value
 
 
-def escape_special_string_characters(string: str) -> str:
-    """Escapes all occurrences of special characters."""
-    # Replace " or ' with \\" or \\' if not already escaped
-    string = re.sub(r"(^|[^\\])('|\")", r"\1\\\2", string)
+def escape_special_string_characters(string: str, is_value: bool = False) -> str:
+    """Escapes all occurrences of special characters.
+
+    If `is_value` is set, the string is a runtime value (not a piece of source code):
+    nothing in it is "already escaped", so every backslash and every quote is escaped.
+    """
+    if is_value:
+        string = string.replace("\\", "\\\\")
+        string = re.sub(r"('|\")", r"\\\1", string)
+    else:
+        # Replace " or ' with \\" or \\' if not already escaped
+        string = re.sub(r"(?<!\\)('|\")", r"\\\1", string)
     # Replace other special characters
     escaped_characters_map = {
         "\n": "\\n",
